@@ -238,15 +238,24 @@ func configs3(r *ev.Run) {
 		{"sphere", &model3d.Sphere{Center: model3d.XYZ(0.1, 0.2, -0.1), Radius: 1}, 0.25},
 		{"box", model3d.NewRect(model3d.XYZ(-1, -0.8, -1.1), model3d.XYZ(1, 1.2, 0.9)), 0.25},
 		{"capsule", &model3d.Capsule{P1: model3d.XYZ(-1, 0, 0), P2: model3d.XYZ(1, 0.5, 0.2), Radius: 0.7}, 0.25},
+		// sharp edges and rims, which a coarse mesh chamfers (the dilation has to make up for that)
+		{"L-boxes", model3d.JoinedSolid{model3d.NewRect(model3d.XYZ(-1, -1, -1), model3d.XYZ(1, 0, 0.2)), model3d.NewRect(model3d.XYZ(-1, -1, -1), model3d.XYZ(-0.1, 1, 1))}, 0.125},
+		{"tilted-cylinder", &model3d.Cylinder{P1: model3d.XYZ(-0.6, -0.3, -0.7), P2: model3d.XYZ(0.5, 0.4, 0.8), Radius: 0.6}, 0.125},
 	} {
 		for _, iters := range []int{0, 2} {
 			want := faces(model3d.MarchingCubesSearch(sd.s, sd.delta, iters))
 			for _, k := range []float64{1, 2, 3} {
-				r.Eval(1)
-				got := faces(model3d.MarchingCubesC2F(sd.s, sd.delta*k, sd.delta, 0, iters))
-				r.NontrivialKey(fmt.Sprintf("c2f/%s/%v/%d", sd.name, k, iters))
-				if got != want {
-					r.Violation("config/MarchingCubesC2F", "face set differs from MarchingCubesSearch at the fine spacing", cfgCase{"MarchingCubesC2F", sd.name, 16, "", sd.delta, fmt.Sprintf("bigDelta=%g iters=%d", sd.delta*k, iters)})
+				// extra space is added to the built-in dilation, whatever its value
+				for _, extra := range []float64{0, 1e-3, 0.01, 0.3} {
+					if extra != 0 && (iters == 0 || k == 1) {
+						continue
+					}
+					r.Eval(1)
+					got := faces(model3d.MarchingCubesC2F(sd.s, sd.delta*k, sd.delta, extra, iters))
+					r.NontrivialKey(fmt.Sprintf("c2f/%s/%v/%d/%v", sd.name, k, iters, extra))
+					if got != want {
+						r.Violation("config/MarchingCubesC2F", "face set differs from MarchingCubesSearch at the fine spacing", cfgCase{"MarchingCubesC2F", sd.name, 16, "", sd.delta, fmt.Sprintf("bigDelta=%g iters=%d extraSpace=%g", sd.delta*k, iters, extra)})
+					}
 				}
 			}
 		}
@@ -297,10 +306,12 @@ func configs2(r *ev.Run) {
 				}
 			}
 			for _, k := range []float64{1, 2, 3} {
-				r.Eval(1)
-				want := meshq.SegMultiset2(model2d.MarchingSquaresSearch(sh.s, delta, 2).SegmentSlice())
-				if got := meshq.SegMultiset2(model2d.MarchingSquaresC2F(sh.s, delta*k, delta, 0, 2).SegmentSlice()); got != want {
-					r.Violation("config/MarchingSquaresC2F", "segment set differs from MarchingSquaresSearch at the fine spacing", cfgCase{"MarchingSquaresC2F", sh.name, procs, "", delta, fmt.Sprintf("bigDelta=%g", delta*k)})
+				for _, extra := range []float64{0, 1e-3, 0.01} {
+					r.Eval(1)
+					want := meshq.SegMultiset2(model2d.MarchingSquaresSearch(sh.s, delta, 2).SegmentSlice())
+					if got := meshq.SegMultiset2(model2d.MarchingSquaresC2F(sh.s, delta*k, delta, extra, 2).SegmentSlice()); got != want {
+						r.Violation("config/MarchingSquaresC2F", "segment set differs from MarchingSquaresSearch at the fine spacing", cfgCase{"MarchingSquaresC2F", sh.name, procs, "", delta, fmt.Sprintf("bigDelta=%g extraSpace=%g", delta*k, extra)})
+					}
 				}
 			}
 		}
